@@ -14,7 +14,7 @@ func derivesFrom(v, r ssa.Value) bool {
 	if v == r {
 		return true
 	}
-	sl := backSlice(v, SliceOpt{ThroughFreeVars: true})
+	sl := backSlice(v, SliceOpt{ThroughFreeVars: true, CallArgs: true, NoAddrCallArgs: true})
 	return sl.Vals[r]
 }
 
